@@ -709,11 +709,13 @@ static bool CheckDag(vh::Ctx& c, Dag& d, const std::vector<History>& hs, const C
   double tol = 0;
   for (auto& p : dn.placed) { scale = std::max(scale, p.soup.scale); area += p.area; }
   for (auto& x : rs) { scale = std::max(scale, x.soup.scale); if (std::isfinite(x.tol)) tol = std::max(tol, x.tol); }
+  // an empty result reports no meaningful tolerance: never use a band narrower than the leaves' own
+  for (auto& l : d.leaves) { double t = l.empty ? 0.0 : l.m.GetTolerance(); if (std::isfinite(t)) tol = std::max(tol, t); }
   long double tau = (long double)tol + 8 * 2.220446049250313e-16L * scale;
   // (2) samples
   std::vector<Sample> ss;
   int per = std::max(1, (int)(o.leafTris * 12 / std::max<size_t>(12, dn.placed.size())));
-  for (auto& p : dn.placed) SurfaceSamples(c.rng, p.soup, tau, dn.placed.size() > 40 ? (c.rng.chance(0.15) ? 1 : 0) : per, 'L', ss);
+  for (auto& p : dn.placed) SurfaceSamples(c.rng, p.soup, tau, dn.placed.size() > 40 ? (c.rng.chance(60.0 / dn.placed.size()) ? 1 : 0) : per, 'L', ss);
   for (auto& x : rs) SurfaceSamples(c.rng, x.soup, tau, o.ownTris, 'R', ss);
   V3 lo{1e300L, 1e300L, 1e300L}, hi{-1e300L, -1e300L, -1e300L};
   for (auto& p : dn.placed) {
@@ -811,65 +813,55 @@ static void RandomDag(vh::Ctx& c) {
   std::vector<int> open;  // nodes without a parent yet
   std::vector<int> used;  // nodes that already have a parent (candidates for sharing)
   for (int i = 0; i < nl; i++) open.push_back(d.addLeafNode(i));
-  size_t expanded = nl;  // size of the tree expansion
-  std::vector<size_t> weight(d.nodes.size(), 1);
-  auto take = [&]() -> int {
-    // an unused node, or (sharing) an already used op node / leaf under a fresh generic transform
-    if (!used.empty() && r.chance(0.3) && expanded < 40) {
-      int s = used[r.below(used.size())];
-      expanded += weight[s];
-      int x = d.addXform(s, GenericSteps(r, 0.7));
-      weight.push_back(weight[s]);
-      return x;
-    }
+  std::vector<size_t> weight(d.nodes.size(), 1);  // size of each node's tree expansion
+  size_t expanded = nl;
+  auto pickOp = [&]() { double u = r.uni(); return u < 0.5 ? 0 : u < 0.82 ? 1 : 2; };
+  auto fromOpen = [&]() {
     size_t k = r.below(open.size());
     int v = open[k];
     open.erase(open.begin() + k);
     used.push_back(v);
     return v;
   };
-  int guard = 0;
-  while ((open.size() > 1 || d.nodes.back().kind == KLeaf) && guard++ < 200) {
+  // a node that already has a parent is only ever reused through its own fresh generic transform
+  auto sharedUse = [&]() {
+    int s = used[r.below(used.size())];
+    int x = d.addXform(s, GenericSteps(r, 0.7));
+    weight.push_back(weight[s]);
+    expanded += weight[s];
+    return x;
+  };
+  auto operand = [&](bool mustBeOpen) {
+    if (!mustBeOpen && !used.empty() && expanded < 40 && (open.empty() || r.chance(0.3))) return sharedUse();
+    return fromOpen();
+  };
+  for (int step = 0; step < 60 && (open.size() > 1 || d.nodes[open[0]].kind == KLeaf); step++) {
     int kind = r.range(0, 9);
-    if (open.empty()) break;
-    if (kind <= 4 && open.size() >= 1) {
-      int a = take();
-      if (open.empty() && used.size() < 2) { open.push_back(a); used.pop_back(); break; }
-      int b = open.empty() ? -1 : take();
-      if (b < 0) {  // pair it with a shared node
-        int s = used[r.below(used.size())];
-        b = d.addXform(s, GenericSteps(r, 0.7));
-        weight.push_back(weight[s]);
-        expanded += weight[s];
-      }
-      int op = r.range(0, 2);
+    if (kind <= 4) {
+      int a = operand(true);
+      int b = (open.empty() && (used.size() < 2 || expanded >= 40)) ? -1 : operand(false);
+      if (b < 0) { open.push_back(a); used.pop_back(); break; }
+      int op = pickOp();
       int nn = r.chance(0.5) ? d.addBool(op, a, b) : d.addBool(op, b, a);
       weight.push_back(weight[a] + weight[b]);
       open.push_back(nn);
-    } else if (kind <= 7 && open.size() >= 2) {
+    } else if (kind <= 7) {
+      if (open.size() < 2) continue;
       int k = r.range(2, std::min<int>(5, (int)open.size() + 1));
       std::vector<int> ks;
       size_t w = 0;
-      for (int i = 0; i < k && (!open.empty() || !used.empty()); i++) {
-        if (open.empty()) {
-          int s = used[r.below(used.size())];
-          int x = d.addXform(s, GenericSteps(r, 0.7));
-          weight.push_back(weight[s]);
-          expanded += weight[s];
-          ks.push_back(x);
-        } else
-          ks.push_back(take());
+      for (int i = 0; i < k; i++) {
+        if (open.empty() && (used.empty() || expanded >= 40)) break;
+        ks.push_back(operand(i == 0));
         w += weight[ks.back()];
       }
       if (ks.size() < 2) { for (int x : ks) open.push_back(x); continue; }
-      int nn = d.addBatch(r.range(0, 2), ks);
+      for (size_t i = ks.size() - 1; i > 0; i--) std::swap(ks[i], ks[r.below(i + 1)]);
+      int nn = d.addBatch(pickOp(), ks);
       weight.push_back(w);
       open.push_back(nn);
     } else {
-      size_t k = r.below(open.size());
-      int v = open[k];
-      open.erase(open.begin() + k);
-      used.push_back(v);
+      int v = fromOpen();
       int nn = d.addXform(v, GenericSteps(r, 0.5));
       weight.push_back(weight[v]);
       open.push_back(nn);
@@ -877,7 +869,10 @@ static void RandomDag(vh::Ctx& c) {
   }
   if (open.size() > 1) {
     std::vector<int> ks = open;
-    d.addBatch(0, ks);
+    d.addBatch(r.chance(0.7) ? 0 : 1, ks);
+  } else if (open[0] != (int)d.nodes.size() - 1) {
+    // the surviving open node must be the root = last node: wrap it
+    d.addXform(open[0], GenericSteps(r, 0.3));
   }
   d.countParents();
   bool shared = false;
@@ -953,7 +948,7 @@ static void Rewrites(vh::Ctx& c) {
       if (r.chance(0.6)) {  // integer boxes whose bounding boxes touch exactly (face, edge or corner), far from the rest
         d.family = "rewrite:bbox-touching-boxes";
         int m = r.range(2, 4);
-        vec3 at(40, 0, 0);
+        vec3 at(0, 100, 0);
         for (int i = 0; i < m; i++) {
           vec3 sz(r.range(1, 3), r.range(1, 3), r.range(1, 3));
           d.leaves.push_back(BoxLeaf(at, sz));
